@@ -590,6 +590,10 @@ def node_kmer_iter_tables(F, rep, rule="C18.1"):
 
     def setup(h):
         h.reads = []
+        h.arith = []
+        h.assume({"N": 1, "K": 1}, hi=1 << 62)   # a node's bases are in memory: its length N+K-1 is nowhere near usize::MAX
+        h.assume({"N": 1}, hi=1 << 62)
+        h.assume({"K": 1}, hi=1 << 62)
         h.assume({"c": 1}, lo=0)
         h.assume({"N": 1}, lo=0)
         h.assume({"K": 1}, lo=1)
@@ -601,6 +605,13 @@ def node_kmer_iter_tables(F, rep, rule="C18.1"):
         pr = []
         st = cells["self"].v
         c2, n2 = st.fields[names.index("kmer_id")], st.fields[names.index("num_kmers")]
+        wr = h.wraps(ATOMS)
+        if wr is not None:
+            op, fa, fb, env = wr
+            pr.append("%s computes %s %s %s in usize, which overflows for kmer_id=%d, num_kmers=%d, K=%d, n=%d (a panic in a build with overflow checks; "
+                      "without them the value wraps and the counter/position no longer means what the code assumes) — the contract covers every n"
+                      % (what, aff_str(bv.aff_pack(*fa)), {"Add": "+", "Sub": "-", "Mul": "*"}[op], aff_str(bv.aff_pack(*fb)), env["c"], env["N"], env["K"], env["m"]))
+            return pr
         if not aff_eq(n2, {"N": 1}, 0):
             pr.append("%s changes num_kmers" % what)
         # invariant c' <= N
@@ -760,6 +771,12 @@ def node_kmer_iter_tables(F, rep, rule="C18.1"):
         def check5(h, out, cells, adt=adt):
             fn_ = [f["name"] for f in F.adts[adt]["variants"][0]["fields"]]
             i2 = cells["self"].v.fields[fn_.index("node_id")]
+            wr = h.wraps(("i", "L"))
+            if wr is not None:
+                op, fa, fb, env = wr
+                return ["%s::next computes %s %s %s in usize, which overflows for node_id=%d on a graph of %d nodes (a panic in a build with overflow checks; "
+                        "otherwise the wrapped value makes the end test meaningless)" % (adt.split("::")[-1], aff_str(bv.aff_pack(*fa)),
+                                                                                       {"Add": "+", "Sub": "-", "Mul": "*"}[op], aff_str(bv.aff_pack(*fb)), env["i"], env["L"])]
             lt = h.truth("Lt", {"i": 1, "L": -1}, 0)
             if lt is None:
                 return [("inc", "end test undecided")]
@@ -778,7 +795,14 @@ def node_kmer_iter_tables(F, rep, rule="C18.1"):
                 if not (isinstance(out, Adt) and out.variant == 0):
                     pr.append("past the last node the iterator must end")
             return pr
-        run_rows(F, rep, "C18.4", adt + "::next", body, mk_args5, check5, "%s::next visits node i for i = 0..len, one item per node" % adt.split("::")[-1], mk_h=H5)
+        def setup5(h):
+            h.arith = []
+            h.assume({"i": 1}, lo=0)
+            h.assume({"L": 1}, lo=0, hi=1 << 62)
+            h.assume({"i": 1, "L": -1}, hi=0)      # node_id only ever advances while it is below len
+
+        run_rows(F, rep, "C18.4", adt + "::next", body, mk_args5, check5, "%s::next visits node i for i = 0..len (including the graph without nodes), "
+                 "one item per node" % adt.split("::")[-1], mk_h=H5, setup=setup5)
 
 
 # =========================================================================== C15.1 view discipline / renderers, C15.2-3 hamming distance
